@@ -5,7 +5,7 @@ valid pre-filled (start,len) state, every source, every interleaving of next / n
 partial drains).  Tie: correspondence between the model's executable definitions
 (Signal/BufferedRun.v, evaluated by coqc) and dasp_signal's `source.buffered(ring_buffer)` driven
 over real `Bounded::from_raw_parts(start,len,data)` buffers with an instrumented from_iter source."""
-import json, os, itertools
+import json, os, itertools, hashlib
 import framework as F
 
 PROP = "C14"
@@ -16,6 +16,7 @@ META = dict(
     design="6/C14")
 HEADER = "From Dasp Require Import Signal.BufferedRun."
 CHECK = "check"
+RUN_VO = "theories/Signal/BufferedRun.vo"
 
 
 def coq_op(o):
@@ -63,40 +64,40 @@ def tail(cap, ln, srclen, one_by_one=False):
 
 
 def gen_cases(rng, tier):
-    items = []
+    """generator (the thorough tier is processed in chunks to bound memory)"""
     k = 0
     # 1. every short script from every raw (start,len) state of capacities 1..5
     for cap in range(1, 6):
         data = [10 * (i + 1) for i in range(cap)]
         alpha = alphabet(cap)
         if tier == "quick":
-            plans = [(0, list(range(0, 14))), (1, list(range(0, 14)))]
+            plans = [(0, list(range(0, 14))),
+                     (1, list(range(0, 14)) if cap <= 3 else sorted({0, 1, cap - 1, cap, cap + 1, 2 * cap + 1, 13}))]
             if cap <= 3:
                 plans.append((2, sorted({0, cap, cap + 1, 2 * cap + 1})))
         else:
             plans = [(0, list(range(0, 14))), (1, list(range(0, 14))), (2, list(range(0, 14)))]
             if cap <= 3:
-                plans.append((3, list(range(0, 14))))
+                plans.append((3, list(range(0, 14)) if cap <= 2 else [0, 1, cap, cap + 1, 2 * cap + 1, 13]))
         for depth, srclens in plans:
             for start in range(cap):
                 for ln in range(cap + 1):
                     for sl in srclens:
                         src = [101 + i for i in range(sl)]
                         for script in itertools.product(alpha, repeat=depth):
-                            items.append(build(dict(store=k % 4, ftype=(k // 4) % 2, start=start, len=ln, data=data,
-                                                    src=src, ops=[list(o) for o in script] + tail(cap, ln, sl, depth == 0),
-                                                    group=f"exh{depth}")))
+                            yield build(dict(store=k % 4, ftype=(k // 4) % 2, start=start, len=ln, data=data,
+                                             src=src, ops=[list(o) for o in script] + tail(cap, ln, sl, depth == 0),
+                                             group=f"exh{depth}"))
                             k += 1
     # constructor asserts (malformed raw parts, capacity 0)
     for cap in range(0, 4):
         data = [10 * (i + 1) for i in range(cap)]
         for start, ln in ((cap, 0), (0, cap + 1), (cap + 1, cap), (cap, cap + 1)):
-            items.append(build(dict(store=k % 4, ftype=k % 2, start=start, len=ln, data=data, src=[1, 2],
-                                    ops=[["next"]], group="malformed")))
+            yield build(dict(store=k % 4, ftype=k % 2, start=start, len=ln, data=data, src=[1, 2],
+                             ops=[["next"]], group="malformed"))
             k += 1
-    n_exh = len(items)
     # 2. random longer scripts
-    n_rand = 2500 if tier == "quick" else 40000
+    n_rand = 2000 if tier == "quick" else 40000
     for j in range(n_rand):
         r = rng.fork(f"script{j}")
         cap = r.choice([1, 1, 2, 2, 3, 3, 4, 4, 5, 5, 6, 7, 8, 11, 16])
@@ -119,9 +120,8 @@ def gen_cases(rng, tier):
                 ops.append(["exh"])
             else:
                 ops.append(r.choice([["hint"], ["exh"]]))
-        items.append(build(dict(store=r.below(4), ftype=r.below(2), start=start, len=ln, data=data, src=src,
-                                ops=ops + [["exh"]], group="random")))
-    return items, n_exh
+        yield build(dict(store=r.below(4), ftype=r.below(2), start=start, len=ln, data=data, src=src,
+                         ops=ops + [["exh"]], group="random"))
 
 
 def nontrivial(item, obs_line):
@@ -178,31 +178,58 @@ def main(rep, tier, seed):
     if not ok:
         rep.violation("harness_build", {"kind": "harness does not build against /repo", "log": blog[-4000:]}, no_input=True)
         return finish(rep, info, 0, 0, {}, [])
+    # the executable model is not in the closure of props/C14.v: build it from its current source
+    ok, mlog = F.coq_make(RUN_VO)
+    if not ok:
+        rep.violation("model_build", {"kind": "executable model does not compile", "target": RUN_VO, "log_tail": mlog[-4000:]}, no_input=True)
+        return finish(rep, info, 0, 0, {}, [])
     corpus = load_corpus()
-    items, n_exh = gen_cases(rng, tier)
-    items = corpus + items
-    outl, bad, errors = F.correspond(binpath, items, HEADER, CHECK, "c14")
-    for name, msg in errors:
-        rep.violation("correspondence_error_" + name.replace("/", "_"),
-                      {"kind": "correspondence could not be evaluated", "where": name, "log": msg}, no_input=True)
     hist, caps, srcl, groups, stores = {}, {}, {}, {}, {}
-    for it in items:
-        for o in it["ops"]:
-            hist[o[0]] = hist.get(o[0], 0) + 1
-        for d, key in ((caps, len(it["data"])), (srcl, len(it["src"])), (groups, it.get("group", "corpus")),
-                       (stores, f"store{it['store']}/ftype{it['ftype']}")):
-            d[str(key)] = d.get(str(key), 0) + 1
-    nontriv = len({it["line"] for it, o in zip(items, outl) if nontrivial(it, o)}) if not errors else 0
-    refills = 0
-    for o in outl:
-        p_prev = 0
-        for ob in o.split(";"):
-            t = ob.split()
-            if len(t) >= 3 and t[0] != "8":
-                refills += int(t[1]) > p_prev
-                p_prev = int(t[1])
-    for idx in bad[:3]:
-        it = items[idx]
+    st = dict(n=0, refills=0, bad=0, errors=False)
+    nontriv, samples, bad_items = set(), [], []
+
+    def process(chunk, base):
+        outl, bad, errors = F.correspond(binpath, chunk, HEADER, CHECK, "c14")
+        for name, msg in errors:
+            st["errors"] = True
+            rep.violation(f"correspondence_error_{base}_" + name.replace("/", "_"),
+                          {"kind": "correspondence could not be evaluated", "where": name, "log": msg}, no_input=True)
+        for it in chunk:
+            for o in it["ops"]:
+                hist[o[0]] = hist.get(o[0], 0) + 1
+            for d, key in ((caps, len(it["data"])), (srcl, len(it["src"])), (groups, it.get("group", "corpus")),
+                           (stores, f"store{it['store']}/ftype{it['ftype']}")):
+                d[str(key)] = d.get(str(key), 0) + 1
+        if not errors:
+            for it, o in zip(chunk, outl):
+                if nontrivial(it, o):
+                    nontriv.add(hashlib.sha256(it["line"].encode()).digest()[:12])
+                p_prev = 0
+                for ob in o.split(";"):
+                    t = ob.split()
+                    if len(t) >= 3 and t[0] != "8":
+                        st["refills"] += int(t[1]) > p_prev
+                        p_prev = int(t[1])
+        st["bad"] += len(bad)
+        for idx in bad:
+            if len(bad_items) < 3:
+                bad_items.append((base + idx, chunk[idx]))
+        for j in (0, len(chunk) // 2, len(chunk) - 1):
+            if len(samples) < 4 and chunk:
+                samples.append(chunk[j]["line"])
+        st["n"] += len(chunk)
+
+    CHUNK = 25000
+    chunk, base = [], 0
+    for it in itertools.chain(corpus, gen_cases(rng, tier)):
+        chunk.append(it)
+        if len(chunk) >= CHUNK:
+            process(chunk, base)
+            base += len(chunk)
+            chunk = []
+    if chunk:
+        process(chunk, base)
+    for idx, it in bad_items:
 
         def fails(c):
             o, b, e = F.correspond(binpath, [c], HEADER, CHECK, "c14_shrink")
@@ -216,14 +243,14 @@ def main(rep, tier, seed):
             "case": {k: small[k] for k in CASE_KEYS},
             "harness_line": small["line"], "implementation_observations": out, "model_observations": model[-3000:],
             "original_case_index": idx, "replay": "./check.py C14 --replay <this file>"})
+    n_rand = groups.get("random", 0)
     dist = {"ops_histogram": hist, "capacity": caps, "source_length": srcl, "group": groups, "storage_and_frame_kind": stores,
-            "exhaustive_short_script_cases": n_exh, "random_scripts": len(items) - n_exh - len(corpus),
-            "corpus_cases": len(corpus), "refills_observed": refills}
-    samples = [items[i]["line"] for i in (len(corpus), len(corpus) + n_exh // 2, len(items) - 1)] if items else []
-    return finish(rep, info, len(items), nontriv, dist, samples, bad)
+            "exhaustive_short_script_cases": st["n"] - n_rand - len(corpus), "random_scripts": n_rand,
+            "corpus_cases": len(corpus), "refills_observed": st["refills"]}
+    return finish(rep, info, st["n"], 0 if st["errors"] else len(nontriv), dist, samples, st["bad"])
 
 
-def finish(rep, info, n, nontriv, dist, samples, bad=()):
+def finish(rep, info, n, nontriv, dist, samples, nbad=0):
     th = info.get("theorems", [])
     cov = {
         "obligations": max(1, len(th)), "discharged": len(th) if info.get("coq_ok") else 0,
@@ -234,8 +261,8 @@ def finish(rep, info, n, nontriv, dist, samples, bad=()):
             "reused: the C06 Bounded model and its refinement lemmas (Ring/BoundedProofs.v)"],
         "theorems": th, "axioms_reported": info.get("axioms", []),
         "evaluations": n, "distinct_nontrivial": nontriv,
-        "rule": "every script of depth 0 and 1 (quick: depth 2 for capacities <= 3 on 4 source lengths; thorough: depth 2 everywhere, depth 3 for capacities <= 3) over {next, frames 0..cap+1, manual cap+2, all, hint, exh} from every raw (start,len) state of capacities 1..5 and source lengths 0..13, each followed by a drain past exhaustion (one frame at a time after the empty script, whole batches after the others) with is_exhausted watched, plus random scripts (2500 quick / 40000 thorough) on capacities 1..16, 4 storage kinds x 2 frame types; non-trivial = a refill (source pull counter rises) happens while the ring's start index != 0, or a partial drain (batch yields >= 1 frame and leaves >= 1) is directly followed by next",
-        "samples": samples, "input_distribution": dist, "disagreements": len(bad),
+        "rule": "every script of depth 0 and 1 (quick: depth 1 for capacities 4,5 on 7 source lengths, depth 2 for capacities <= 3 on 4 source lengths; thorough: depth 2 everywhere, depth 3 for capacities <= 3 (capacity 3 on 6 source lengths)) over {next, frames 0..cap+1, manual cap+2, all, hint, exh} from every raw (start,len) state of capacities 1..5 and source lengths 0..13, each followed by a drain past exhaustion (one frame at a time after the empty script, whole batches after the others) with is_exhausted watched, plus random scripts (2000 quick / 40000 thorough) on capacities 1..16, 4 storage kinds x 2 frame types; non-trivial = a refill (source pull counter rises) happens while the ring's start index != 0, or a partial drain (batch yields >= 1 frame and leaves >= 1) is directly followed by next",
+        "samples": samples, "input_distribution": dist, "disagreements": nbad,
         "explanation": "theorems: refinement of the model to the ideal prefetcher and its stream / pull-block / exhaustion / padding consequences for all capacities, states, sources and histories; tie: the model's executable definitions run by coqc on the same cases as the real crate, every observation (frames, both pull counters after each op, size_hint, is_exhausted, final ring content) compared exactly",
     }
     return rep.finish("proof", cov, ["the source is signal::from_iter over a finite iterator (frames then equilibrium forever)",
@@ -247,6 +274,7 @@ def replay(path):
     j = json.load(open(path))
     it = build(j["case"])
     ok, blog, binpath = F.harness_build("c14")
+    F.coq_make(RUN_VO)
     rc, out, _ = F.run_bin(binpath, [it["line"]])
     _, model = F.coq_eval("c14", HEADER, f"run_case ({it['coq']})")
     print("case:", it["line"])
